@@ -137,6 +137,9 @@ def main(argv=None):
                      ['--runs', '0:%d' % tcfg.get('variant_budget', runs), '--variant', vname,
                       '--no-minimise']))
 
+    # long sequential chains (variants) first; a few extra workers so they overlap with the main batch
+    jobs.sort(key=lambda j: 0 if j[0].startswith('variant:') else 1)
+    workers += tcfg.get('extra_workers', 0)
     results = []
     with cf.ThreadPoolExecutor(max_workers=workers) as ex:
         futs = {}
